@@ -201,9 +201,11 @@ func c17DecideReading(ups []*c17Up, pfx, rx, spfx, srx string) c17Decision {
 }
 
 // c17Decide returns the acceptable outcomes for an escaped request path. Without proxyRawPath there is exactly one.
-// With proxyRawPath the documentation does not say which form of the path is matched, so when the escaped and the
-// decoded form of the path differ, every outcome that results from using either form at each matching step
-// (patterns, prefixes/exact paths, slash-appended test) is accepted; the first entry is the all-escaped reading.
+// With proxyRawPath ("pass the raw url path to upstream"): prefixes and exact paths are matched against the ESCAPED
+// path only — an escaped slash is not a path separator for routing — while rewrite patterns keep matching the decoded
+// path (that is the path the rule rewrites). Only when NO upstream matches is there a second acceptable outcome: the
+// documentation does not say which form the "would it match with a slash appended" courtesy redirect uses, so a 301
+// to path+"/" and a 404 are both accepted there when the two forms differ — neither delivers the request anywhere.
 func c17Decide(ups []*c17Up, raw bool, esc string) []c17Decision {
 	dec, ok := c17Unescape(esc, false)
 	if !ok {
@@ -218,27 +220,11 @@ func c17Decide(ups []*c17Up, raw bool, esc string) []c17Decision {
 		}
 		return []c17Decision{c17DecideReading(ups, dec, dec, dec, dec)}
 	}
-	out := []c17Decision{c17DecideReading(ups, esc, esc, esc, esc)}
-	if esc == dec {
-		return out
-	}
-	forms := []string{esc, dec}
-	for _, a := range forms {
-		for _, b := range forms {
-			for _, c := range forms {
-				for _, e := range forms {
-					d := c17DecideReading(ups, a, b, c, e)
-					dup := false
-					for _, o := range out {
-						if o.Kind == d.Kind && o.Up == d.Up {
-							dup = true
-						}
-					}
-					if !dup {
-						out = append(out, d)
-					}
-				}
-			}
+	d := c17DecideReading(ups, esc, dec, esc, dec)
+	out := []c17Decision{d}
+	if d.Kind != "upstream" && esc != dec {
+		if alt := c17DecideReading(ups, esc, dec, dec, dec); alt.Kind != d.Kind || alt.Up != d.Up {
+			out = append(out, alt)
 		}
 	}
 	return out
